@@ -45,7 +45,7 @@ import (
 func init() {
 	kit.Register(&kit.Spec{
 		ID:   "C38",
-		Rule: "case = (entry point, stream seed): the entry point is run 16x under each of 8 (quick) / 32 (thorough) recording crypto/rand.Reader streams with per-shard fixed keys, messages and passwords; distinct = distinct (entry point, stream, shard inputs); non-trivial = the entry point returned key material without error in all repetitions. Entry points: crypto.GenerateKeyPair, account.NewAccount, account.NewClient(create), account.Create, Client.CreateAccount, crypto.Sign, crypto.SignDigest, Account.Sign, crypto.AggregateSignatures (1..3 keys), crypto.Encrypt",
+		Rule: "case = (entry point, stream seed): the entry point is run 16x under each of 8 (quick) / 32 (thorough) recording crypto/rand.Reader streams with per-shard fixed keys, messages and passwords; distinct = distinct (entry point, stream, shard inputs); non-trivial = the entry point returned key material without error in all repetitions. Entropy-fault family: every entry point additionally runs under crypto/rand.Reader replacements that always error, error for the first k calls, deliver T bytes and then error, or deliver in 1..3 byte pieces (case = entry point x fault reader; non-trivial = the entry point consulted the reader). Entry points: crypto.GenerateKeyPair, account.NewAccount, account.NewClient(create), account.Create, Client.CreateAccount, crypto.Sign, crypto.SignDigest, Account.Sign, crypto.AggregateSignatures (1..3 keys), crypto.Encrypt",
 		Shards: func(tier string) int {
 			if tier == "thorough" {
 				return 8
@@ -54,7 +54,13 @@ func init() {
 		},
 		Run: runC38,
 		Require: []string{"selftest_good_passed", "selftest_weak_flagged", "entry_runs", "materials_checked",
-			"materials_from_secure_source", "keystore_files_decrypted", "signatures_verified", "ecies_roundtrips"},
+			"materials_from_secure_source", "keystore_files_decrypted", "signatures_verified", "ecies_roundtrips",
+			"entropy_fault_cases", "entropy_fault_no_secret", "entropy_fault_secret_traceable", "entropy_fault_benign_short_ok",
+			"entropy_fault_selftest_flagged", "entropy_fault_selftest_clean",
+			"entropy_fault_cases:crypto.GenerateKeyPair", "entropy_fault_cases:account.NewAccount", "entropy_fault_cases:account.NewClient",
+			"entropy_fault_cases:account.Create", "entropy_fault_cases:Client.CreateAccount", "entropy_fault_cases:crypto.Sign",
+			"entropy_fault_cases:crypto.SignDigest", "entropy_fault_cases:Account.Sign", "entropy_fault_cases:crypto.AggregateSignatures/1keys",
+			"entropy_fault_cases:crypto.AggregateSignatures/2keys", "entropy_fault_cases:crypto.AggregateSignatures/3keys", "entropy_fault_cases:crypto.Encrypt"},
 		Assumptions: []string{
 			"go1.23.5: ecdsa.GenerateKey / ecdsa.Sign / elliptic.GenerateKey take their entropy from the io.Reader they are given (calibrated per run with a direct stdlib call; inconclusive otherwise)",
 			"decides the enumerated public entry points, not 'all code paths' (no static claim); p2p version nonces / DPoS handshake challenge nonces are not secret key material and are out of scope",
@@ -80,6 +86,49 @@ func (s *c38Stream) Read(p []byte) (int, error) {
 	return len(p), nil
 }
 
+// c38UnderReader runs f with crypto/rand.Reader replaced by rd. f may restore
+// the healthy reader early through the returned-to-env afterG hook.
+func c38UnderReader(rd io.Reader, f func()) {
+	old := crand.Reader
+	crand.Reader = rd
+	defer func() { crand.Reader = old }()
+	f()
+}
+
+// c38Produce runs one entry point with crypto/rand.Reader replaced by rd and
+// returns the key material it produced.
+func c38Produce(env *c38Env, ent *c38Entry, rd io.Reader, rep string) (vals map[string][]byte, err error) {
+	if ent.name == "Client.CreateAccount" {
+		// keystore prepared with the healthy reader, then one CreateAccount
+		// on the reopened client under rd
+		p := env.freshPath()
+		if _, e := account.Create(p, append([]byte(nil), env.pass...)); e != nil {
+			return nil, e
+		}
+		cl, e := account.Open(p, append([]byte(nil), env.pass...))
+		if e != nil {
+			return nil, e
+		}
+		c38UnderReader(rd, func() {
+			var a *account.Account
+			a, err = cl.CreateAccount()
+			env.produced()
+			if err == nil {
+				vals = map[string][]byte{"privateKey": c38Pad32(a.PrivKey())}
+			}
+		})
+		if err == nil {
+			re, e := account.Open(p, append([]byte(nil), env.pass...))
+			if e != nil || len(re.GetAccounts()) != 2 {
+				return nil, fmt.Errorf("keystore does not hold the created account (%v)", e)
+			}
+		}
+		return
+	}
+	c38UnderReader(rd, func() { vals, err = ent.gen(rep) })
+	return
+}
+
 // c38Under runs f with crypto/rand.Reader replaced by a fresh stream of the
 // given seed and returns the number of bytes f drew from it.
 func c38Under(seed int64, f func()) int64 {
@@ -100,6 +149,11 @@ type c38Mat struct {
 	max     int // allowed distinct values under one stream (0 = the entry's maxDistinct)
 }
 
+// c38RawMaterial: material whose bytes are copied verbatim from the secure
+// source (so they must occur in the log of bytes the source delivered).
+var c38RawMaterial = map[string]bool{"account.NewClient.iv": true, "account.NewClient.masterKey": true,
+	"account.Create.iv": true, "account.Create.masterKey": true, "crypto.Encrypt.iv": true}
+
 type c38Entry struct {
 	name        string
 	maxDistinct int // allowed distinct values under one stream (default for its materials)
@@ -117,6 +171,17 @@ type c38Env struct {
 	pass   []byte
 	sKeys  [][]*big.Int // schnorr key sets of size 1..3
 	dirN   int
+	// afterG, when set, runs right after the secret-producing call of an
+	// entry point returned and before the functional controls (verify,
+	// reopen, decrypt). The entropy-fault family restores the healthy
+	// crypto/rand.Reader there so that only G itself sees the fault.
+	afterG func()
+}
+
+func (e *c38Env) produced() {
+	if e.afterG != nil {
+		e.afterG()
+	}
 }
 
 func (e *c38Env) freshPath() string {
@@ -187,6 +252,7 @@ func c38Entries(e *c38Env) []c38Entry {
 			mats: []c38Mat{{"privateKey", []string{gk}, 32, 0}},
 			gen: func(string) (map[string][]byte, error) {
 				priv, pub, err := crypto.GenerateKeyPair()
+				e.produced()
 				if err != nil {
 					return nil, err
 				}
@@ -199,6 +265,7 @@ func c38Entries(e *c38Env) []c38Entry {
 			mats: []c38Mat{{"privateKey", []string{"account.NewAccount.privateKey", gk}, 32, 0}},
 			gen: func(string) (map[string][]byte, error) {
 				a, err := account.NewAccount()
+				e.produced()
 				if err != nil {
 					return nil, err
 				}
@@ -208,7 +275,9 @@ func c38Entries(e *c38Env) []c38Entry {
 			mats: []c38Mat{{"iv", []string{"account.NewClient.iv"}, 16, 0}, {"masterKey", []string{"account.NewClient.masterKey"}, 32, 0}},
 			gen: func(string) (map[string][]byte, error) {
 				p := e.freshPath()
-				if cl := account.NewClient(p, pw(), true); cl == nil {
+				cl := account.NewClient(p, pw(), true)
+				e.produced()
+				if cl == nil {
 					return nil, fmt.Errorf("NewClient returned nil")
 				}
 				iv, mk, err := c38ReadKeystore(p, e.pass)
@@ -226,6 +295,7 @@ func c38Entries(e *c38Env) []c38Entry {
 			gen: func(string) (map[string][]byte, error) {
 				p := e.freshPath()
 				cl, err := account.Create(p, pw())
+				e.produced()
 				if err != nil {
 					return nil, err
 				}
@@ -252,6 +322,7 @@ func c38Entries(e *c38Env) []c38Entry {
 			mats: []c38Mat{{"nonce", []string{sg}, 32, 0}},
 			gen: func(string) (map[string][]byte, error) {
 				sig, err := crypto.Sign(e.priv, e.msg)
+				e.produced()
 				if err != nil {
 					return nil, err
 				}
@@ -264,6 +335,7 @@ func c38Entries(e *c38Env) []c38Entry {
 			mats: []c38Mat{{"nonce", []string{"crypto.SignDigest.nonce"}, 32, 0}},
 			gen: func(string) (map[string][]byte, error) {
 				sig, err := crypto.SignDigest(e.priv, e.digest)
+				e.produced()
 				if err != nil {
 					return nil, err
 				}
@@ -276,6 +348,7 @@ func c38Entries(e *c38Env) []c38Entry {
 			mats: []c38Mat{{"nonce", []string{"Account.Sign.nonce", sg}, 32, 0}},
 			gen: func(string) (map[string][]byte, error) {
 				sig, err := e.acct.Sign(e.msg)
+				e.produced()
 				if err != nil {
 					return nil, err
 				}
@@ -293,6 +366,7 @@ func c38Entries(e *c38Env) []c38Entry {
 				var m [32]byte
 				copy(m[:], e.digest)
 				sig, err := crypto.AggregateSignatures(ks, m)
+				e.produced()
 				if err != nil {
 					return nil, err
 				}
@@ -318,6 +392,7 @@ func c38Entries(e *c38Env) []c38Entry {
 		mats: []c38Mat{{"ephemeralKey", []string{"crypto.Encrypt.ephemeralKey"}, 32, 0}, {"iv", []string{"crypto.Encrypt.iv"}, 16, 0}},
 		gen: func(string) (map[string][]byte, error) {
 			ct, err := crypto.Encrypt(e.pub, e.msg)
+			e.produced()
 			if err != nil {
 				return nil, err
 			}
@@ -475,33 +550,9 @@ func runC38(c *kit.Ctx) {
 		run := func(s int64, rep int) (vals map[string][]byte, drawn int64, err error) {
 			c.Inc("entry_runs")
 			c.Inc("entry_runs:" + ent.name)
-			if ent.name == "Client.CreateAccount" {
-				// keystore prepared outside the recorded stream, then one
-				// CreateAccount on the reopened client under R
-				p := env.freshPath()
-				if _, e := account.Create(p, append([]byte(nil), env.pass...)); e != nil {
-					return nil, 0, e
-				}
-				cl, e := account.Open(p, append([]byte(nil), env.pass...))
-				if e != nil {
-					return nil, 0, e
-				}
-				drawn = c38Under(s, func() {
-					var a *account.Account
-					if a, err = cl.CreateAccount(); err == nil {
-						vals = map[string][]byte{"privateKey": c38Pad32(a.PrivKey())}
-					}
-				})
-				if err == nil {
-					re, e := account.Open(p, append([]byte(nil), env.pass...))
-					if e != nil || len(re.GetAccounts()) != 2 {
-						return nil, 0, fmt.Errorf("keystore does not hold the created account (%v)", e)
-					}
-				}
-				return
-			}
-			drawn = c38Under(s, func() { vals, err = ent.gen(fmt.Sprint(rep)) })
-			return
+			st := newC38Stream(s)
+			vals, err = c38Produce(env, &ent, st, fmt.Sprint(rep))
+			return vals, st.n, err
 		}
 		res := c38Evaluate(&ent, streams, run)
 		for _, s := range streams {
@@ -568,6 +619,7 @@ func runC38(c *kit.Ctx) {
 			c.Sample(smp)
 		}
 	}
+	c38EntropyFaults(c, env)
 	c.Sample(map[string]interface{}{"streams": len(streams), "repetitions": c38Reps, "password": string(env.pass), "schnorr_key_sets": len(env.sKeys)})
 }
 
